@@ -155,9 +155,10 @@ fn skip_until_next_comma(input: ParseStream) -> proc_macro2::TokenStream {
             let mut stuff = quote!();
             let mut rest = *cursor;
             while let Some((tt, next)) = rest.token_tree() {
-                if let Some((TokenTree::Punct(punct), _)) = next.token_tree() {
+                // stop *at* the next comma - including one that follows the key directly
+                if let TokenTree::Punct(punct) = &tt {
                     if punct.as_char() == ',' {
-                        return Ok((stuff, next));
+                        return Ok((stuff, rest));
                     }
                 }
 
